@@ -310,7 +310,7 @@ def take_restore(db, ctx):
     take = any(is_call(c) and path_ends(callee(c), ("mem::replace", "mem::take", "Option::take")) and "top_path" in render(c) for c, _ in walk(r.hir)) or \
         any(c.get("k") == "MethodCall" and c.get("method") == "take" and "top_path" in render(c["recv"]) for c, _ in walk(r.hir))
     ctx.ob("resolve_best_path|take", take, "top_path is taken out (mem::replace/take): %s" % take, fn=r)
-    d = db.one("do_tokenize", "StatefulTokenizer")
+    d = db.view(db.one("do_tokenize", "StatefulTokenizer"), keep=("rewrite_input", "build_lattice", "resolve_best_path"))
     seq = []
     for c, ps in walk(d.hir):
         if (is_call(c) or c.get("k") == "MethodCall") and callee(c):
@@ -347,7 +347,7 @@ def reset_clears_results(db, ctx):
     ctx.ob("StatefulTokenizer::reset|clears-results", "top_path" in killed,
            "StatefulTokenizer::reset clears the previous result path (fields killed: %s): do_tokenize returns early for an empty normalised text and for "
            "too-long input, i.e. before resolve_best_path could clear anything, and collect_results swaps whatever the tokenizer holds into the list" % sorted(killed), fn=tr)
-    d = db.one("do_tokenize", "StatefulTokenizer")
+    d = db.view(db.one("do_tokenize", "StatefulTokenizer"), keep=("rewrite_input", "build_lattice", "resolve_best_path"))
     early = [ek for ifn, cond, pol, ek, ps in guarded_exits(d.hir) if ek in ("ok", "ret")]
     ctx.ob("do_tokenize|has-early-ok-return", len(early) >= 1, "do_tokenize has %d early successful returns (why the clear must live in reset())" % len(early), fn=d, nontrivial=False)
 
